@@ -30,5 +30,5 @@ PLAN = dict(
     assumptions=["heap blocks of an object = blocks allocated (malloc/aligned_alloc/...) during its constructor call"],
     quick=_jobs("quick"), thorough=_jobs("thorough"),
     required_classes=dict(all=["call:" + c for c in CALLS] + ["table:" + t for t in TABLES] +
-                          ["module:NTT120", "cfg:generic", "aliased_output_other_source_checked", "sources:2"]),
+                          ["module:NTT120", "cfg:generic", "aliased_output_other_source_checked", "sources:2", "placement:packed-up", "placement:packed-down"]),
 )
